@@ -96,7 +96,7 @@ pub fn classify_round(rd: &Round, given: &[Given], st: &mut Stats) -> bool {
     st.classf("rate", if rd.kind.is_high(k, r) { "high" } else { "low" });
     st.classf("size", gen::size_class(b));
     st.classf("loss", if given.len() == k { "max" } else if given.len() == k + r { "none" } else { "partial" });
-    st.classf("pattern", gen::PATTERN_NAMES[rd.recv.pattern as usize % 8]);
+    st.classf("pattern", gen::PATTERN_NAMES[rd.recv.pattern as usize % 10]);
     n_orig < k && n_rec > 0
 }
 
